@@ -9,7 +9,34 @@ import tempfile
 import engine as EN
 
 
+def run_mono(c):
+    """--policy monocolumn: every line one field; library (query_csv) and command line (file -> stdout, stdin -> stdout)"""
+    import rbql
+    d = tempfile.mkdtemp(prefix='c13m_', dir=os.environ.get('VERIF_SCRATCH'))
+    res = {}
+    try:
+        inp, outp = os.path.join(d, 'in.txt'), os.path.join(d, 'out.txt')
+        data = ''.join(l + '\n' for l in c['lines']).encode('utf-8')
+        with open(inp, 'wb') as f:
+            f.write(data)
+        try:
+            rbql.query_csv(c['q'], inp, '', 'monocolumn', outp, '', 'monocolumn', 'utf-8', [], False)
+            res['lib'] = {'text': open(outp, 'rb').read().decode('utf-8'), 'error': None}
+        except Exception as e:
+            res['lib'] = {'text': None, 'error': EN.canon_error(e)}
+        for name, extra, use_stdin in (('cli_file', ['--input', inp], False), ('cli_stdin', [], True)):
+            p = subprocess.run([sys.executable, '-W', 'ignore', '-m', 'rbql', '--policy', 'monocolumn', '--query', c['q']] + extra,
+                               input=data if use_stdin else None, stdout=subprocess.PIPE, stderr=subprocess.PIPE, env=dict(os.environ), cwd=d, timeout=120)
+            se = [l for l in p.stderr.decode('utf-8').split('\n') if l]
+            res[name] = {'rc': p.returncode, 'text': p.stdout.decode('utf-8'), 'stderr_first': se[0][:80] if se else None}
+        return res
+    finally:
+        shutil.rmtree(d, ignore_errors=True)
+
+
 def run_case(c):
+    if c.get('part') == 'c13mono':
+        return run_mono(c)
     from rbql import rbql_sqlite
     d = tempfile.mkdtemp(prefix='c13s_', dir=os.environ.get('VERIF_SCRATCH'))
     res = {}
